@@ -90,6 +90,8 @@ def deserialize_list_like(
 
     values = []
     items = field.items
+    if isinstance(field, Tuple) and len(items) == 1:
+        items = items[0]
     if isinstance(items, Field):
         ignore_none = getattr(items, IGNORE_NONE_VALUES, False)
         for i, v in enumerate(value):
@@ -109,6 +111,10 @@ def deserialize_list_like(
                 raise ValueError(f"{prefix}{str(e)}") from e
             values.append(list_item)
     elif isinstance(items, (list, tuple)):
+        if len(value) < len(items):
+            raise ValueError(
+                f"{name}: Got {value}; Expected at least {len(items)} items"
+            )
         for i, item in enumerate(items):
             try:
                 ignore_none = getattr(item, IGNORE_NONE_VALUES, False)
